@@ -141,6 +141,26 @@ def run_rec_property(res, fn, props_module, theorems, spec_fns=None, extra_fns=(
                                 "more": [x[0][1] for x in unlisted[1:6]], "count": len(unlisted),
                                 "broken": [b[0] for b in broken]}, True)
         return
+    # the same verdicts under CONCURRENT callers (a verdict must not depend on what other goroutines are validating at the
+    # same moment: a shared memo can be torn without any data race) — the helpers-race program of the harness, attributed to
+    # this property only when its report names this recognizer
+    names = {"uuid": "IsValidUUID", "email": "IsValidEmail", "url": "IsValidURL"}
+    if fns and fns[0] in names:
+        import json as _json
+        import shutil as _sh
+        import subprocess as _sp
+        work = C.scratch("gvhrace")
+        try:
+            q = _sp.run([os.path.join(C.BIN, "harness"), "helpers-race", tier, work, C.REPO], stdout=_sp.PIPE, stderr=_sp.PIPE, text=True, env=C.goenv())
+            hr = _json.loads(q.stdout.strip().split("\n")[-1]) if q.returncode == 0 and q.stdout.strip() else None
+        finally:
+            _sh.rmtree(work, ignore_errors=True)
+        if hr is not None:
+            res.cov["distribution"]["concurrent callers: goroutines x iterations x fresh processes"] = hr["goroutines"] * hr["iterations"] * hr.get("processes", 1)
+            if not hr["ok"] and names[fns[0]] in hr["output"]:
+                res.violation("concurrent", {"kind": "rec-concurrent", "fn": fns[0], "what": "%s gives a wrong verdict (or races) when several goroutines validate different inputs at the same time" % names[fns[0]],
+                                             "output": hr["output"][-4000:], "program": hr["program"], "broken": [b[0] for b in broken]}, True)
+                return
     if disagreements_model:
         r, a = disagreements_model[0]
         broken.append(("corr-rec", "model and implementation disagree on %s %s: impl=%s model=%s (%d cases)" % (r[0], r[1], r[2], a, len(disagreements_model))))
